@@ -248,6 +248,24 @@ pub fn install_panic_hook() {
     }));
 }
 
+/// The implementation failed at something every check takes for granted on a correct tree
+/// (constructing an interpreter, evaluating the harness's own valid setup code, registering a
+/// well-formed library source). That is a verdict about the implementation, not a machinery
+/// failure: write a replay record, print the VIOLATION line and end the check with status 1.
+pub fn impl_fail(what: &str) -> ! {
+    let id = crate::CURRENT_ID.get().cloned().unwrap_or_else(|| "C00".to_string());
+    let dir = std::path::Path::new(crate::report::VERIF).join("replays");
+    let _ = std::fs::create_dir_all(&dir);
+    let path = dir.join(format!("{}-setup.json", id));
+    let _ = std::fs::write(&path, serde_json::json!({"property": id, "case": "harness precondition on the implementation", "observed": what, "payload": {"kind": "setup"}}).to_string());
+    println!("VIOLATION property={} replay={}", id, path.display());
+    println!("  case: a precondition of the check fails on this tree");
+    println!("  observed: {}", what);
+    use std::io::Write;
+    let _ = std::io::stdout().flush();
+    std::process::exit(1);
+}
+
 pub fn take_panic() -> String {
     LAST_PANIC.with(|p| std::mem::take(&mut *p.borrow_mut()))
 }
@@ -308,6 +326,13 @@ impl Interp {
             let base = it.env.clone();
             Interp { it, base }
         })
+    }
+    /// `new()`, a failure being a verdict about the implementation (see `impl_fail`)
+    pub fn must_new() -> Interp {
+        Self::new().unwrap_or_else(|p| impl_fail(&format!("Interpreter::new_with_stdlib() panics: {}", p)))
+    }
+    pub fn must_bare() -> Interp {
+        Self::bare().unwrap_or_else(|p| impl_fail(&format!("Interpreter::default() panics: {}", p)))
     }
     /// pooled mode: run the next case in a fresh child frame of the stdlib frame
     pub fn fresh_frame(&mut self) {
